@@ -212,6 +212,8 @@ class ShapeEval:
             if e.get("variant") == "Some":
                 return ("opt", self.ev(e["fields"][0]["e"], env))
             return ("opt", None)
+        if k == "Adt" and e.get("adt_local") and e.get("variant") and not e.get("fields"):
+            return ("enum", e.get("adt"), e.get("variant"))       # a field-less variant of a crate-local enum (a named case)
         if k == "Block":
             if e.get("e") is None:
                 return ("unk", "block without value")
@@ -302,6 +304,10 @@ class ShapeEval:
                 if m is None:
                     res = None
             return res
+        if k == "Variant" and pat.get("adt") != OPTION and not pat.get("subs"):
+            if val[0] == "enum" and val[1] == pat.get("adt"):
+                return val[2] == pat.get("variant")
+            return None
         if k == "Variant" and pat.get("adt") == OPTION:
             if val[0] != "opt":
                 for v, _, _, _ in F.pat_bindings(pat):
@@ -331,6 +337,9 @@ class ShapeEval:
         outs = []
         for sv in self.alts(self.ev(e["scrutinee"], env)):
             decided = False
+            if self.force(sv)[0] == "unk" and len(e["arms"]) > 1 and all(a["pat"].get("k") == "Variant" and a["pat"].get("adt") != OPTION for a in e["arms"]):
+                # which case of an enum is selected is not known: the arms are mutually exclusive cases, not alternatives that must all type-check
+                raise Abstain("match on a value of an enum that is not tracked (%s)" % show(e["scrutinee"])[:50])
             for a in e["arms"]:
                 e2 = Env(env)
                 m = self.matches(a["pat"], sv, e2)
